@@ -45,8 +45,10 @@ InitColumns ==
   \E ix \in (IF la = A THEN {DefaultIdx(2), <<iv(20), iv(10)>>} ELSE {DefaultIdx(2)}) :
   \E ka \in ColAChecks : \E ua \in BOOLEAN :
   \E kb \in ColBChecks : \E nb \in BOOLEAN : \E db \in {"float64", "int64"} : \E lz \in BOOLEAN :
+  \E ra \in BOOLEAN :        \* column a declared by its label, or by a regex that matches exactly that label
      st = Start([BaseSchema EXCEPT !.cols =
-                 << [BaseCol EXCEPT !.key = la, !.dtype = "int64", !.checks = ka, !.unique = ua],
+                 << [BaseCol EXCEPT !.key = IF ~ra THEN la ELSE IF la = A THEN rv(4) ELSE IF la = sv(1) THEN rv(10) ELSE rv(11),
+                                    !.regex = ra, !.dtype = "int64", !.checks = ka, !.unique = ua],
                     [BaseCol EXCEPT !.key = B, !.dtype = db, !.nullable = nb, !.checks = kb] >>],
               [cols |-> << IntCol(la, ca), [name |-> B, pd |-> "float64", cells |-> cb] >>,
                idx |-> ix, idxpd |-> "int64", idxname |-> NA], lz, FALSE, AsIs)
